@@ -280,9 +280,9 @@ def run_float(ctx, n):
         # sampled P itself - which may be a hair off unit length - and a moderately scaled one), in a seeded order, so that a
         # result that depends on what was evaluated before at that point is seen as well
         combos = [(Pm, True), (Pn, False), (Pn, True)]
-        if 1e-50 <= np.linalg.norm(P) <= 1e50:
-            # (the derivative scales like 1/|P| and its normalisation term forms |P|^-4: representable for 1e-50 <= |P| <= 1e50;
-            #  the comparison below is scaled by |P|, so short and long quaternions are judged like unit ones)
+        if 1e-100 <= np.linalg.norm(P) <= 1e100:
+            # (the derivative scales like 1/|P|: representable over the whole sampled range of lengths; the comparison below is
+            #  scaled by |P|, so short and long quaternions are judged like unit ones)
             combos.append((P, True))
         order = rng.permutation(len(combos))
         for ci in order:
